@@ -369,6 +369,26 @@ class Prog:
         r = self.tk(ty)
         return isinstance(r, dict) and 'Adt' in r and self.adt(ty)['adt_kind'] == 'enum'
 
+    def byname_lookup(self, name):
+        """key of the dumped function with exactly this instance name (index built on first use)"""
+        if not hasattr(self, '_names'):
+            self._names = {}
+            import re as _re
+            for k, (a, b) in self.idx['fn'].items():
+                m = _re.search(rb'"name":"((?:[^"\\\\]|\\\\.)*)"', self.mm[a:min(b, a + 4000)]) if False else None
+            for k in self.idx['fn']:
+                a, b = self.idx['fn'][k]
+                chunk = self.mm[b - 600:b] if b - a > 600 else self.mm[a:b]
+                # "name" is one of the last keys of the record (serde_json sorts keys): cheap tail scan, fall back to full parse
+                i = chunk.rfind(b'"name":"')
+                if i >= 0:
+                    j = chunk.find(b'"', i + 8)
+                    nm = chunk[i + 8:j].decode()
+                else:
+                    nm = self.fn(k)['name']
+                self._names.setdefault(nm, k)
+        return self._names.get(name)
+
     def root_by_name(self, sub):
         return [r for r in self.roots if sub in r['name']]
 
@@ -1102,6 +1122,8 @@ class Exec:
         cell, path, sp = self.resolve(fr, pl)
         v = self.read(cell, path, sp)
         if v is None:
+            if not pl['projection'] and self.p.ty(fn['body']['locals'][pl['local']]['ty']).get('size') == 0:
+                return Agg([])
             raise Unsupported('read of uninitialised local _%d' % pl['local'])
         return self.clone(v)
 
@@ -1442,6 +1464,8 @@ class Exec:
                             pass   # assume / copy_nonoverlapping: only reached inside stopped std code
                 t = blk['terminator']['kind']
                 if t == 'Return':
+                    if fr[0].val is None and self.p.ty(body['locals'][0]['ty']).get('size') == 0:
+                        return Agg([])      # zero-sized return value is never written explicitly
                     return fr[0].val
                 if t == 'Unreachable':
                     raise PathEnd('unreachable', fn['name'])
